@@ -268,6 +268,12 @@ def handle (op : String) (args : List String) : Option String := do
         let ray : PolyVerif.Gen.rendering.TemporalRay Float := ⟨⟨ox, oy, oz⟩, ⟨dx, dy, dz⟩, time⟩
         pure (distStr (PolyVerif.RPrims.meshHit t ray mn mx) ++ " " ++ distStr (PolyVerif.RPrims.meshHit2 t ray mn mx))
       | _, _ => none
+  | "c16.holds.box_history" => do   -- args: <where> box(6) cs(3) ce(3) r : the box a sphere returned for THIS interval = model
+      let fs ← floats? (args.drop 1)
+      match fs with
+      | [a, b, c, d, e, f, s1, s2, s3, e1, e2, e3, r] =>
+        pure (boolStr (fsHex (bbTo (PolyVerif.RPrims.sphereBox (⟨s1, s2, s3⟩ : V3 Float) ⟨e1, e2, e3⟩ r)) == fsHex [a, b, c, d, e, f]))
+      | _ => none
   | "c16.holds.prim_in_box" => do
       let fs ← floats? (args.drop 1)
       match fs with
